@@ -72,3 +72,69 @@ func VerifOneMessagePerWrite() {
 	}
 	symapi.Reach("end")
 }
+
+// verifMsgSocket delivers scripted incoming messages; each message's reader hands its bytes
+// out in pieces of at most `piece` bytes (continuation frames, TCP segments).
+type verifMsgSocket struct {
+	verifSocket
+	in    [][]byte
+	piece int
+}
+
+type verifPieceReader struct {
+	b     []byte
+	piece int
+}
+
+func (r *verifPieceReader) Read(p []byte) (int, error) {
+	if len(r.b) == 0 {
+		return 0, io.EOF
+	}
+	n := r.piece
+	if n > len(r.b) {
+		n = len(r.b)
+	}
+	if n > len(p) {
+		n = len(p)
+	}
+	copy(p, r.b[:n])
+	r.b = r.b[n:]
+	return n, nil
+}
+
+func (s *verifMsgSocket) NextReader() (int, io.Reader, error) {
+	if len(s.in) == 0 {
+		return 0, nil, io.EOF
+	}
+	m := s.in[0]
+	s.in = s.in[1:]
+	return 2, &verifPieceReader{b: m, piece: s.piece}, nil
+}
+
+// VerifReadWholeMessages (C14 / C13): the byte stream read from the WebSocket wrapper is the
+// concatenation of the incoming messages - nothing dropped, nothing repeated - however the
+// bytes of one message trickle in and whatever buffer size the reader uses.
+func VerifReadWholeMessages() {
+	msgs := [][]byte{[]byte("ANNOUNCE rtsp://h/a RTSP/1.0\r\nCSeq: 1\r\nContent-Length: 5\r\n\r\nv=0\r\n"), []byte("OPTIONS * RTSP/1.0\r\nCSeq: 2\r\n\r\n"), {'$', 0, 0, 3, 1, 2, 3}}
+	var want []byte
+	for _, m := range msgs {
+		want = append(want, m...)
+	}
+	s := &verifMsgSocket{in: msgs, piece: []int{1, 7, 64, 4096}[symapi.Choose("piece", 4)]}
+	c := newConn(s, "/live/a", "")
+	bufSize := []int{1, 5, 16, 4096}[symapi.Choose("readBuffer", 4)]
+	var got []byte
+	for k := 0; k < 4*len(want)+8; k++ {
+		p := make([]byte, bufSize)
+		n, err := c.Read(p)
+		got = append(got, p[:n]...)
+		if err != nil {
+			break
+		}
+	}
+	symapi.Assert(len(got) == len(want), "stream-is-the-concatenation-of-the-messages")
+	for i := 0; i < len(want) && i < len(got); i++ {
+		symapi.Assert(got[i] == want[i], "bytes-in-order")
+	}
+	symapi.Reach("end")
+}
